@@ -151,9 +151,11 @@ class Reader:
         self.end = len(self.data) if end is None else end
 
     def remaining(self):
+        """Number of unread bytes in this block."""
         return self.end - self.pos
 
     def eof(self):
+        """True when the block is fully consumed."""
         return self.pos >= self.end
 
     def take(self, n):
@@ -169,15 +171,19 @@ class Reader:
         return int.from_bytes(self.take(nbytes), "big")
 
     def u8(self):
+        """Read a uint8."""
         return self.uint(1)
 
     def u16(self):
+        """Read a uint16."""
         return self.uint(2)
 
     def u24(self):
+        """Read a uint24."""
         return self.uint(3)
 
     def u32(self):
+        """Read a uint32."""
         return self.uint(4)
 
     def vec(self, nlen):
@@ -208,14 +214,17 @@ def vec(nlen, data):
 
 
 def u8(v):
+    """Encode a uint8."""
     return struct.pack("!B", v)
 
 
 def u16(v):
+    """Encode a uint16."""
     return struct.pack("!H", v)
 
 
 def u32(v):
+    """Encode a uint32."""
     return struct.pack("!I", v)
 
 
@@ -273,6 +282,7 @@ class _Msg:
     msg_type = None
 
     def body(self):
+        """Message body (without the 4-byte handshake header)."""
         raise NotImplementedError
 
     def encode(self):
@@ -297,6 +307,7 @@ class ClientHello(_Msg):
     msg_type = HT_CLIENT_HELLO
 
     def body(self):
+        """Message body (without the 4-byte handshake header)."""
         return (
             u16(self.legacy_version)
             + self.random
@@ -308,6 +319,7 @@ class ClientHello(_Msg):
 
     @classmethod
     def parse_body(cls, body):
+        """Strictly decode a message body (without the handshake header) -> instance; DecodeError on any length lie or trailing bytes."""
         r = Reader(body)
         ver = r.u16()
         rnd = r.take(32)
@@ -338,9 +350,11 @@ class ServerHello(_Msg):
 
     @property
     def is_hello_retry_request(self):
+        """True iff random is the HelloRetryRequest magic (RFC 8446 4.1.3)."""
         return self.random == HRR_RANDOM
 
     def body(self):
+        """Message body (without the 4-byte handshake header)."""
         return (
             u16(self.legacy_version)
             + self.random
@@ -352,6 +366,7 @@ class ServerHello(_Msg):
 
     @classmethod
     def parse_body(cls, body):
+        """Strictly decode a message body (without the handshake header) -> instance; DecodeError on any length lie or trailing bytes."""
         r = Reader(body)
         ver = r.u16()
         rnd = r.take(32)
@@ -371,10 +386,12 @@ class EncryptedExtensions(_Msg):
     msg_type = HT_ENCRYPTED_EXTENSIONS
 
     def body(self):
+        """Message body (without the 4-byte handshake header)."""
         return encode_extensions(self.extensions)
 
     @classmethod
     def parse_body(cls, body):
+        """Strictly decode a message body (without the handshake header) -> instance; DecodeError on any length lie or trailing bytes."""
         r = Reader(body)
         exts = read_extensions(r)
         r.finish()
@@ -390,10 +407,12 @@ class CertificateRequest(_Msg):
     msg_type = HT_CERTIFICATE_REQUEST
 
     def body(self):
+        """Message body (without the 4-byte handshake header)."""
         return vec(1, self.certificate_request_context) + encode_extensions(self.extensions)
 
     @classmethod
     def parse_body(cls, body):
+        """Strictly decode a message body (without the handshake header) -> instance; DecodeError on any length lie or trailing bytes."""
         r = Reader(body)
         ctx = r.vec(1)
         exts = read_extensions(r)
@@ -410,11 +429,13 @@ class Certificate(_Msg):
     msg_type = HT_CERTIFICATE
 
     def body(self):
+        """Message body (without the 4-byte handshake header)."""
         lst = b"".join(vec(3, der) + encode_extensions(exts) for der, exts in self.entries)
         return vec(1, self.certificate_request_context) + vec(3, lst)
 
     @classmethod
     def parse_body(cls, body):
+        """Strictly decode a message body (without the handshake header) -> instance; DecodeError on any length lie or trailing bytes."""
         r = Reader(body)
         ctx = r.vec(1)
         lst = r.sub(3)
@@ -435,10 +456,12 @@ class CertificateVerify(_Msg):
     msg_type = HT_CERTIFICATE_VERIFY
 
     def body(self):
+        """Message body (without the 4-byte handshake header)."""
         return u16(self.algorithm) + vec(2, self.signature)
 
     @classmethod
     def parse_body(cls, body):
+        """Strictly decode a message body (without the handshake header) -> instance; DecodeError on any length lie or trailing bytes."""
         r = Reader(body)
         alg = r.u16()
         sig = r.vec(2)
@@ -454,10 +477,12 @@ class Finished(_Msg):
     msg_type = HT_FINISHED
 
     def body(self):
+        """Message body (without the 4-byte handshake header)."""
         return self.verify_data
 
     @classmethod
     def parse_body(cls, body):
+        """Strictly decode a message body (without the handshake header) -> instance; DecodeError on any length lie or trailing bytes."""
         return cls(bytes(body))
 
 
@@ -473,6 +498,7 @@ class NewSessionTicket(_Msg):
     msg_type = HT_NEW_SESSION_TICKET
 
     def body(self):
+        """Message body (without the 4-byte handshake header)."""
         return (
             u32(self.ticket_lifetime)
             + u32(self.ticket_age_add)
@@ -483,6 +509,7 @@ class NewSessionTicket(_Msg):
 
     @classmethod
     def parse_body(cls, body):
+        """Strictly decode a message body (without the handshake header) -> instance; DecodeError on any length lie or trailing bytes."""
         r = Reader(body)
         life = r.u32()
         add = r.u32()
@@ -501,10 +528,12 @@ class KeyUpdate(_Msg):
     msg_type = HT_KEY_UPDATE
 
     def body(self):
+        """Message body (without the 4-byte handshake header)."""
         return u8(self.request_update)
 
     @classmethod
     def parse_body(cls, body):
+        """Strictly decode a message body (without the handshake header) -> instance; DecodeError on any length lie or trailing bytes."""
         r = Reader(body)
         v = r.u8()
         r.finish()
@@ -518,10 +547,12 @@ class EndOfEarlyData(_Msg):
     msg_type = HT_END_OF_EARLY_DATA
 
     def body(self):
+        """Message body (without the 4-byte handshake header)."""
         return b""
 
     @classmethod
     def parse_body(cls, body):
+        """Strictly decode a message body (without the handshake header) -> instance; DecodeError on any length lie or trailing bytes."""
         if body:
             raise DecodeError("EndOfEarlyData has a body")
         return cls()
@@ -537,10 +568,12 @@ class CompressedCertificate(_Msg):
     msg_type = HT_COMPRESSED_CERTIFICATE
 
     def body(self):
+        """Message body (without the 4-byte handshake header)."""
         return u16(self.algorithm) + self.uncompressed_length.to_bytes(3, "big") + vec(3, self.compressed)
 
     @classmethod
     def parse_body(cls, body):
+        """Strictly decode a message body (without the handshake header) -> instance; DecodeError on any length lie or trailing bytes."""
         r = Reader(body)
         alg = r.u16()
         n = r.u24()
@@ -564,6 +597,7 @@ class RawMessage(_Msg):
     raw_body: bytes = b""
 
     def body(self):
+        """Message body (without the 4-byte handshake header)."""
         return self.raw_body
 
 
@@ -610,6 +644,7 @@ def ext_supported_versions_client(versions=(TLS13,)):
 
 
 def parse_ext_supported_versions_client(data):
+    """ClientHello supported_versions payload -> list of versions."""
     r = Reader(data)
     s = r.sub(1)
     out = []
@@ -625,6 +660,7 @@ def ext_supported_versions_server(version=TLS13):
 
 
 def parse_ext_supported_versions_server(data):
+    """ServerHello/HRR supported_versions payload -> selected version."""
     r = Reader(data)
     v = r.u16()
     r.finish()
@@ -637,6 +673,7 @@ def ext_key_share_client(shares):
 
 
 def parse_ext_key_share_client(data):
+    """ClientHello key_share payload -> [(group, key_exchange)]."""
     r = Reader(data)
     s = r.sub(2)
     out = []
@@ -653,6 +690,7 @@ def ext_key_share_server(group, key_exchange):
 
 
 def parse_ext_key_share_server(data):
+    """ServerHello key_share payload -> (group, key_exchange)."""
     r = Reader(data)
     g = r.u16()
     k = r.vec(2)
@@ -675,6 +713,7 @@ ext_supported_groups = ext_u16_list
 
 
 def parse_ext_u16_list(data):
+    """signature_algorithms / supported_groups payload -> list of uint16."""
     r = Reader(data)
     s = r.sub(2)
     out = []
@@ -710,6 +749,7 @@ def ext_alpn(protocols):
 
 
 def parse_ext_alpn(data):
+    """ALPN payload -> list of protocol names (bytes)."""
     r = Reader(data)
     s = r.sub(2)
     out = []
@@ -720,10 +760,12 @@ def parse_ext_alpn(data):
 
 
 def ext_psk_key_exchange_modes(modes=(PSK_DHE_KE,)):
+    """psk_key_exchange_modes payload (RFC 8446 4.2.9)."""
     return vec(1, bytes(modes))
 
 
 def parse_ext_psk_key_exchange_modes(data):
+    """psk_key_exchange_modes payload -> list of modes."""
     r = Reader(data)
     out = list(r.vec(1))
     r.finish()
@@ -761,10 +803,12 @@ def binders_block_length(binders):
 
 
 def ext_pre_shared_key_server(selected_identity):
+    """ServerHello pre_shared_key payload (selected_identity)."""
     return u16(selected_identity)
 
 
 def parse_ext_pre_shared_key_server(data):
+    """ServerHello pre_shared_key payload -> selected identity index."""
     r = Reader(data)
     v = r.u16()
     r.finish()
@@ -778,6 +822,7 @@ def ext_early_data_ticket(max_early_data_size):
 
 # ------------------------------------------------------------------ key schedule
 def hash_len(hash_name):
+    """Digest size in bytes of a hashlib hash name."""
     return hashlib.new(hash_name).digest_size
 
 
@@ -889,6 +934,7 @@ class KeySchedule:
         return self._ds(self.early_secret, "ext binder" if external else "res binder", self.empty_hash)
 
     def early(self, th_client_hello):
+        """client_early_traffic_secret and early_exporter_master_secret (transcript = ClientHello)."""
         self.client_early_traffic = self._ds(self.early_secret, "c e traffic", th_client_hello)
         self.early_exporter = self._ds(self.early_secret, "e exp master", th_client_hello)
         return self.client_early_traffic
@@ -1178,6 +1224,7 @@ class _AdversaryBase:
     # -- helpers
     @property
     def hash_name(self):
+        """hashlib name of the negotiated cipher suite's hash (sha256 before negotiation)."""
         return CIPHER_SUITES[self.cipher_suite or CS_AES_128_GCM_SHA256][0]
 
     def th(self, extra=()):
@@ -1345,6 +1392,7 @@ class ServerAdversary(_AdversaryBase):
         return sh, info
 
     def make(self, kind, **kw):
+        """See _AdversaryBase.make: build a message of `kind` over the accepted transcript (not committed)."""
         info = None
         if kind == "server_hello":
             msg, info = self._server_hello(kw)
@@ -1379,6 +1427,7 @@ class ServerAdversary(_AdversaryBase):
         return raw
 
     def accepted(self, raw):
+        """See _AdversaryBase.accepted: the victim took `raw`; extend transcript / advance key schedule."""
         raw = bytes(raw)
         t = raw[0]
         if t == HT_SERVER_HELLO and raw[6:38] != HRR_RANDOM and self.server_hello is None:
@@ -1496,6 +1545,7 @@ class ClientAdversary(_AdversaryBase):
         return ch.encode()
 
     def make(self, kind, **kw):
+        """See _AdversaryBase.make: build a message of `kind` over the accepted transcript (not committed)."""
         if kind == "client_hello":
             return self._client_hello(kw)
         if kind == "server_hello" or kind == "hello_retry_request":
@@ -1525,6 +1575,7 @@ class ClientAdversary(_AdversaryBase):
         return msg.encode()
 
     def accepted(self, raw):
+        """See _AdversaryBase.accepted: the victim took `raw`; extend transcript / advance key schedule."""
         raw = bytes(raw)
         if raw[0] == HT_CLIENT_HELLO and not self.transcript:
             self.client_hello = parse_message(raw)
